@@ -112,6 +112,59 @@ def run_case(rng, tier, case):
             case.check('fixed_window.l_le_u', bool(np.all(sq.l <= sq.u + 1e-12)), n_bad=int(np.sum(sq.l > sq.u + 1e-12)), steps_fixed=kq)
             okp = bool(np.all(np.abs(sq.l[inw] - xg[inw]) <= 1e-9 * (1 + np.abs(xg[inw]))) and np.all(np.abs(sq.u[inw] - xg[inw]) <= 1e-9 * (1 + np.abs(xg[inw])))) if len(sq.c) == len(xg) else False
             case.check('fixed_window.variables_carry_given_values', okp, nonvacuous=bool(inw.any()), steps_fixed=kq, n_window_vars=int(inw.sum()))
+    # the two-stage stochastic program built from the problem (make_slp) is a problem with a mapping like any other: every row names an existing variable,
+    # the rows of one variable agree on asset and variable name, and every scenario copy of a future variable carries exactly the rows of its original
+    # (the original of a copy is identified through the restriction matrix - same column in the copy's row block -, not through the mapping)
+    if not split and r.ok and r.op is not None and not gen.is_mip(spec) and r.op.A is not None and rng.random() < 0.4:
+        import eaopack.stoch_lin_prog as SLP
+        from ..canon import Snap
+        try:
+            base = Snap(r.op)
+            T_ = r.built.timegrid.T
+            kb = int(rng.integers(1, T_)) if T_ > 1 else 0
+            S_ = int(rng.integers(1, 4))
+            samp = [{k_: np.asarray(v_, float) for k_, v_ in gen.gen_prices(rng, T_, sorted(spec['prices']), cap_levels=spec.get('_cap_levels')).items()} for _ in range(S_)]
+            if T_ > 1:
+                with attach.paused(), env.quiet():
+                    slp = SLP.make_slp(r.op, r.built.portfolio, r.built.timegrid, r.built.timegrid.timepoints[kb], samp)
+                ss = Snap(slp)
+                m_ = len(base.c); n_ = len(ss.c); mp = ss.mapping
+                case.feature('slp_mapping')
+                idx = np.asarray(mp.index, dtype=float)
+                in_range = bool(np.all(idx == np.round(idx)) and idx.min() >= 0 and idx.max() < n_)
+                case.check('slp.mapping_index_in_range', in_range, n=n_, imax=float(idx.max()))
+                if in_range and (n_ - m_) % S_ == 0 and n_ > m_:
+                    n_f = (n_ - m_) // S_
+                    ident = {}
+                    for i_, a_, vn_, nd_, t_ in zip(mp.index, mp['asset'], mp['var_name'], mp['node'], mp['time_step']):
+                        ident.setdefault(int(i_), []).append((str(a_), str(vn_), str(nd_), int(t_)))
+                    mixed = [j for j, rows_ in ident.items() if len({(q[0], q[1]) for q in rows_}) > 1]
+                    case.check('slp.rows_of_a_variable_agree', not mixed, first=[{'variable': j, 'rows': ident[j][:4]} for j in mixed[:2]])
+                    A = ss.A.tocsc(); nrows = base.A.shape[0]
+                    colkey = lambda j, r0: (tuple((A.indices[A.indptr[j]:A.indptr[j + 1]][(A.indices[A.indptr[j]:A.indptr[j + 1]] >= r0) & (A.indices[A.indptr[j]:A.indptr[j + 1]] < r0 + nrows)] - r0).tolist()),
+                                            tuple(np.round(A.data[A.indptr[j]:A.indptr[j + 1]][(A.indices[A.indptr[j]:A.indptr[j + 1]] >= r0) & (A.indices[A.indptr[j]:A.indptr[j + 1]] < r0 + nrows)], 12).tolist()))
+                    basekeys = {}
+                    for v_ in range(m_):
+                        basekeys.setdefault(colkey(v_, 0), []).append(v_)
+                    bad = None; matched = 0
+                    for i_ in range(S_):
+                        for q_ in range(n_f):
+                            j = m_ + i_ * n_f + q_
+                            k_ = colkey(j, (i_ + 1) * nrows)
+                            cand = basekeys.get(k_, [])
+                            if len(k_[0]) == 0 or len(cand) != 1:
+                                continue
+                            matched += 1
+                            if sorted(set(ident.get(j, []))) != sorted(set(ident.get(cand[0], []))):
+                                bad = {'copy': j, 'sample': i_, 'original': cand[0], 'rows_of_copy': sorted(set(ident.get(j, [])))[:4], 'rows_of_original': sorted(set(ident.get(cand[0], [])))[:4]}
+                                break
+                        if bad:
+                            break
+                    case.check('slp.copies_carry_the_rows_of_their_original', bad is None, nonvacuous=matched > 0, matched=matched, bad=bad, boundary_step=kb, samples=S_)
+        except AssertionError:
+            pass
+        except Exception as e:
+            case.check('slp.setup_works', False, error='%s: %s' % (type(e).__name__, str(e)[:160]))
     nodal = 0
     for pev in rec.of('portfolio_setup'):
         if pev.snap is not None:
@@ -127,7 +180,13 @@ def run_case(rng, tier, case):
             case.check('split.index_in_range', int(m.index.min()) >= 0 and int(m.index.max()) < n, n=n, imax=int(m.index.max()))
             case.check('split.steps_on_original_grid', int(m['time_step'].min()) >= 0 and int(m['time_step'].max()) < T, T=T,
                        tmax=int(m['time_step'].max()))
-        # the interval problems themselves are problems the portfolio produced: their own mapping must describe their own variables
+        # the interval problems themselves are problems the portfolio produced: their own mapping must describe their own variables, their own record
+        # of nodal rows must list their own nodal rows (one (step, node) entry per row of type N)
+        for k, sub in enumerate(r.op.ops):
+            nN_ = (sub.cType or '').count('N')
+            rec_ = getattr(sub, 'map_nodal_restr', None)
+            if rec_ is not None:
+                case.check('split.interval_problem_nodal_records_match_rows', len(rec_) == nN_ and len(set((int(a_), str(b_)) for a_, b_ in rec_)) == nN_, interval=k, nodal_rows=nN_, records=len(rec_))
         for k, sub in enumerate(r.op.ops):
             mk = sub.mapping
             if mk is not None and len(mk):
